@@ -15,7 +15,7 @@ from harness.core import Case, ImplResult, close
 
 PID = 'C14'
 LEAN_MODULES = ['ThermoVerif.Props.C14']
-RULE = ('histories (≤40 ops) of property reads interleaved with mutators (T, P, phase, phases, flow edits, scale, '
+RULE = ('histories (≤40 ops) of property reads interleaved with mutators (T, P, H and S setters, phase, phases, flow edits, moving a whole phase, scale, '
         'empty, mix, link, unlink, property-package reset, writes through phase views / linked streams / proxies) '
         'on 1–3 real streams; non-trivial = at least one memo hit and one state change between reads; '
         'distinct = distinct op sequences')
@@ -54,23 +54,33 @@ def setup():
     t3 = tmo.Thermo(tmo.Chemicals(cs), cache=False)
     THERMOS[:] = [t1, t2, t3]
     tmo.settings.set_thermo(t1)
-    # count real evaluations of the mixture functions
+    # count real evaluations of the mixture functions: methods of the mixture class (H, S, xH, …) are wrapped on
+    # the class; properties held as model objects in slots (Cn, V, mu, kappa, …) by wrapping their class's __call__
+    import types
+    def counted(f):
+        def g(*a, **k):
+            _COUNT[0] += 1
+            return f(*a, **k)
+        g._verif_counted = True
+        return g
     for th in THERMOS:
         mix = th.mixture
         cls = type(mix)
         for nm in NAMES + ['x' + n for n in NAMES]:
-            f = getattr(cls, nm, None)
-            if f is None or getattr(f, '_verif_counted', False): continue
-            def wrap(f):
-                def g(*a, **k):
-                    _COUNT[0] += 1
-                    return f(*a, **k)
-                g._verif_counted = True
-                return g
-            try:
-                setattr(cls, nm, wrap(f))
-            except Exception:
-                pass
+            f = None
+            for k in cls.__mro__:
+                if nm in k.__dict__:
+                    f = k.__dict__[nm]; owner = k; break
+            if isinstance(f, types.FunctionType):
+                if not getattr(f, '_verif_counted', False):
+                    setattr(owner, nm, counted(f))
+                continue
+            obj = getattr(mix, nm, None)
+            if obj is None: continue
+            ocls = type(obj)
+            call = ocls.__dict__.get('__call__')
+            if isinstance(call, types.FunctionType) and not getattr(call, '_verif_counted', False):
+                ocls.__call__ = counted(call)
     # record every memo lookup
     for cls in (tmo.Stream, tmo.MultiStream):
         orig = cls.__dict__['_get_property']
@@ -242,10 +252,35 @@ def run_ops(ops):
                                      'what': f'`{attr}` read {val!r} but a fresh stream in the same state gives {ref!r} '
                                              f'(object kind {w.kind[o]}, last mutation {w.last_mut[0]})'})
             else:
-                # mutators
+                # mutators (the recorder stays on: some of them read properties themselves)
                 o = int(t[1]); s = w.objs[o]
                 mk = 'state'
-                if op == 'setT': s.T = float(t[2])
+                rec = Recorder(w); _REC = rec
+                if op in ('setH', 'setS'):
+                    # move the stream to the enthalpy / entropy it would have `dT` kelvin away, through the setter
+                    ref = fresh_like(s); ref.T = s.T + float(t[2])
+                    target = ref.H if op == 'setH' else ref.S
+                    _REC = rec
+                    if op == 'setH': s.H = target
+                    else: s.S = target
+                elif op == 'movephase':
+                    # all material of one phase moves to another phase (same T, P, totals)
+                    a, b = t[2], t[3]
+                    if not (isinstance(s, tmo.MultiStream) and a in s.phases and b in s.phases and a != b):
+                        _REC = None
+                        continue
+                    s.imol[b] = s.imol[b] + s.imol[a]
+                    s.imol[a] = 0
+                elif op == 'gather':
+                    # all material of every phase is put into one phase; the others are left empty
+                    a = t[2]
+                    if not (isinstance(s, tmo.MultiStream) and a in s.phases):
+                        _REC = None
+                        continue
+                    tot = s.imol.data.sum(0)
+                    for ph in s.phases: s.imol[ph] = 0
+                    s.imol[a] = tot
+                elif op == 'setT': s.T = float(t[2])
                 elif op == 'setP': s.P = float(t[2])
                 elif op == 'setphase':
                     if isinstance(s, tmo.MultiStream): mk = 'collapse'
@@ -292,6 +327,8 @@ def run_ops(ops):
                         v.imol.data[int(t[3]) % v.imol.data.shape[-1]] = float(t[4])
                 else:
                     raise ValueError('unknown op ' + line)
+                _REC = None
+                for ml, ans in rec.lines: emit(ml, ans)
                 w.last_mut[0] = op; changes += 1
                 emit(f'mut {o} {mk}', 'ok')
         except (RuntimeError, ValueError, AttributeError, IndexError, KeyError, TypeError, tmo.exceptions.UndefinedPhase,
@@ -362,7 +399,11 @@ def gen_case(rng, length):
             else:
                 a = rng.choice(attrs)
             ops.append(f'read {o} {a}'); last_read = (o, a)
-        elif r < 0.50: ops.append(f'setT {o} {rng.choice(tpair) if rng.random() < 0.7 else rng.choice(TS)}')
+        elif r < 0.45: ops.append(f'setT {o} {rng.choice(tpair) if rng.random() < 0.7 else rng.choice(TS)}')
+        elif r < 0.47: ops.append(f'{rng.choice(["setH", "setS"])} {o} {rng.choice([15.0, -12.5, 30.0])}')
+        elif r < 0.50 and kinds[o] == 'multi':
+            if rng.random() < 0.5: ops.append(f'gather {o} {rng.choice("lg")}')
+            else: ops.append(f'movephase {o} {rng.choice(["l g", "g l", "l g", "g l", "l L", "L l"])}')
         elif r < 0.54: ops.append(f'setP {o} {rng.choice(PS)}')
         elif r < 0.58: ops.append(f'setphase {o} {rng.choice("lg")}'); kinds[o] = 'single' if kinds[o] != 'view' else 'view'
         elif r < 0.62:
